@@ -122,7 +122,9 @@ func genC02(rt *rapid.T) core.Scenario {
 		n := rapid.IntRange(1, 6).Draw(rt, "nOps")
 		var ops []C02Op
 		for j := 0; j < n; j++ {
-			switch rapid.SampledFrom([]string{"sub", "sub", "unsub", "unsub", "clear", "pub", "pub", "pub", "pub"}).Draw(rt, "kind") {
+			switch rapid.SampledFrom([]string{"sub", "sub", "unsub", "unsub", "clear", "clearall", "pub", "pub", "pub", "pub", "pub"}).Draw(rt, "kind") {
+			case "clearall":
+				ops = append(ops, C02Op{Kind: "clearall", Type: types[0]})
 			case "sub":
 				if op, ok := newSub("op"); ok {
 					ops = append(ops, op)
@@ -180,6 +182,8 @@ func (sc *C02Scenario) Execute(t *testing.T) *core.Outcome {
 			r.Err = allTypes[op.Type].Unsub(w, op.Fn) != nil
 		case "clear":
 			allTypes[op.Type].Clear(w)
+		case "clearall":
+			clearAll(w)
 		case "pub":
 			allTypes[op.Type].Pub(w, context.Background(), op.ID)
 		}
@@ -287,7 +291,7 @@ func (sc *C02Scenario) Execute(t *testing.T) *core.Outcome {
 			if !r.Err {
 				removals = append(removals, r)
 			}
-		case "clear":
+		case "clear", "clearall":
 			removals = append(removals, r)
 		}
 	}
@@ -311,8 +315,8 @@ func (sc *C02Scenario) Execute(t *testing.T) *core.Outcome {
 		k := regKey(s.Op.Type, s.Op.Fn)
 		var cand, definite []*c02OpRec // removals that may / must have removed this registration
 		for _, x := range removals {
-			if x.Op.Type != s.Op.Type {
-				continue
+			if x.Op.Type != s.Op.Type && x.Op.Kind != "clearall" {
+				continue // (ClearAll removes the registrations of every type)
 			}
 			if x.Op.Kind == "unsub" {
 				if x.Op.Fn == s.Op.Fn {
